@@ -285,9 +285,13 @@ namespace nmtools::utils
                 // TODO: use maybe type
                 auto t_shape = ::nmtools::shape(t);
                 auto u_shape = ::nmtools::shape(u);
-                nmtools_cassert( ::nmtools::utils::isequal(t_shape,u_shape)
-                    , "shape mismatch for isclose"
-                );
+                // arrays of different dimension or shape are not close (no assert: the comparison is total)
+                if ((nm_size_t)len(t_shape) != (nm_size_t)len(u_shape)) {
+                    return false;
+                }
+                if (!::nmtools::utils::isequal(t_shape,u_shape)) {
+                    return false;
+                }
                 auto t_indices = ndindex(t_shape);
                 auto u_indices = ndindex(u_shape);
                 auto numel = t_indices.size();
